@@ -97,6 +97,10 @@ pub enum Form {
   ImportTypeExpr,
   JsxPragma,
   Require,
+  /// `namespace N { export type I = import("T").X; }`
+  ImportTypeInNamespace,
+  /// `namespace N { export const d = import("T"); }`
+  DynamicInNamespace,
 }
 
 pub fn forms_for(kind: Kind) -> Vec<Form> {
@@ -120,6 +124,8 @@ pub fn forms_for(kind: Kind) -> Vec<Form> {
         ImportEquals,
         DeclareModule,
         ImportTypeExpr,
+        ImportTypeInNamespace,
+        DynamicInNamespace,
       ]);
       if kind == Kind::Tsx {
         v.push(JsxPragma);
@@ -549,6 +555,14 @@ impl World {
         }
         Form::Require => {
           body.push_str(&format!("const r{ei} = require(\"{t}\");\n"));
+          w(&t, true);
+        }
+        Form::ImportTypeInNamespace => {
+          body.push_str(&format!("namespace NS{ei} {{ export type I = import(\"{t}\").X{ei}; }}\n"));
+          w(&t, false);
+        }
+        Form::DynamicInNamespace => {
+          body.push_str(&format!("namespace ND{ei} {{ export const d = import(\"{t}\"); }}\n"));
           w(&t, true);
         }
       }
